@@ -1,7 +1,7 @@
 """Layer B generator: seeded random power trees / edit operations as *recipes* (plain data, replayable) together with an
 independent structural reference model (bounded/model.py).  Parameters come from grids chosen so that a steady state with
 modest series drops exists unless a case is deliberately over-loaded."""
-import random, copy, json, warnings, os, sys
+import math, random, copy, json, warnings, os, sys
 warnings.filterwarnings("ignore")
 
 SRC = os.environ.get("SYSLOSS_SRC")
@@ -27,14 +27,26 @@ def make_comp(spec):
 def table_1d(rnd, key, lo, hi, n=None):
     n = n or rnd.randint(2, 4)
     io = sorted(rnd.sample([0.0, 0.001, 0.01, 0.05, 0.1, 0.5, 1.0, 2.0], n))
-    return {"vi": [rnd.choice([3.3, 5.0, 12.0])], "io": io, key: [[round(rnd.uniform(lo, hi), 4) for _ in io]]}
+    row = [round(rnd.uniform(lo, hi), 4) for _ in io]
+    if rnd.random() < 0.15: io, row = [-x for x in io[::-1]], row[::-1]       # the current axis of a negative rail written with its sign (still strictly increasing)
+    return {"vi": [rnd.choice([3.3, 5.0, 12.0])], "io": io, key: [row]}
 
 
 def table_2d(rnd, key, lo, hi):
     ni, nv = rnd.randint(2, 4), rnd.randint(2, 3)
     io = sorted(rnd.sample([0.0, 0.001, 0.01, 0.05, 0.1, 0.5, 1.0, 2.0], ni))
     vi = sorted(rnd.sample([2.5, 3.3, 5.0, 9.0, 12.0, 24.0], nv))
-    return {"vi": vi, "io": io, key: [[round(rnd.uniform(lo, hi), 4) for _ in io] for _ in vi]}
+    form = rnd.random()
+    if form < 0.12:      # each row flat over io, rows differ (parameter depends on vi only)
+        rows = [[round(rnd.uniform(lo, hi), 4)] * ni for _ in vi]
+    elif form < 0.24:    # each column flat over vi (parameter depends on io only)
+        col = [round(rnd.uniform(lo, hi), 4) for _ in io]; rows = [list(col) for _ in vi]
+    else:
+        rows = [[round(rnd.uniform(lo, hi), 4) for _ in io] for _ in vi]
+    if rnd.random() < 0.2: vi = [-v for v in vi]           # the voltage axis of a negative rail written with its sign
+    if rnd.random() < 0.15: vi, rows = vi[::-1], rows[::-1]  # descending rows
+    if rnd.random() < 0.1: io, rows = [-x for x in io[::-1]], [r[::-1] for r in rows]
+    return {"vi": vi, "io": io, key: rows}
 
 
 def maybe_table(rnd, key, lo, hi, const, p_table):
@@ -50,11 +62,14 @@ def rand_limits(rnd, p):
     for k in rnd.sample(LIMKEYS, rnd.randint(1, 4)):
         if k == "tp": lim[k] = rnd.choice([[-40.0, 85.0], [0.0, 30.0], [-10.0, 26.0], [31.0, 1000.0]])
         elif k == "tr": lim[k] = rnd.choice([[0.0, 0.5], [0.0, 50.0], [0.001, 1e6]])
-        elif k in ("vi", "vo"): lim[k] = rnd.choice([[0.0, 4.0], [0.0, 10.0], [3.0, 13.0], [-6.0, 1e6], [0, 100]])
+        elif k in ("vi", "vo"): lim[k] = rnd.choice([[0.0, 4.0], [0.0, 10.0], [3.0, 13.0], [-6.0, 1e6], [0, 100], [-4.5, -5.5], [-2.0, -13.0]])     # limits of a negative rail written with their sign: compared by magnitude
         elif k == "vd": lim[k] = rnd.choice([[0.0, 0.05], [0.0, 3.0], [0.5, 100.0]])
-        elif k in ("ii", "io"): lim[k] = rnd.choice([[0.0, 0.005], [0.0, 0.05], [0.001, 5.0], [0.0, 100.0]])
+        elif k in ("ii", "io"): lim[k] = rnd.choice([[0.0, 0.005], [0.0, 0.05], [0.001, 5.0], [0.0, 100.0], [-0.001, -5.0]])
         else: lim[k] = rnd.choice([[0.0, 0.01], [0.0, 0.2], [0.05, 1e6], [0.0, 1000.0]])
     return lim
+
+
+P_ZERO_OUT = 0.06
 
 
 def comp_spec(rnd, kind, name, pol=1, p_table=0.0, p_limits=0.0, negsign=True):
@@ -89,12 +104,15 @@ def comp_spec(rnd, kind, name, pol=1, p_table=0.0, p_limits=0.0, negsign=True):
         args = {"rs": sg(ch([100.0, 1000.0, 470.0])), "rt": sg(ch([0.0, 10.0])), "loss": rnd.random() < 0.3}
     else:
         raise KeyError(kind)
+    # live-but-0-V output: a regulator whose drop-out voltage exceeds most supplies of the generator's range (on, yet delivering 0 V).
+    # Converters set to 0 V are outside the properties' domain ("regulated outputs non-zero", C01) and are not generated.
+    if kind == "LinReg" and rnd.random() < P_ZERO_OUT: args["vo"], args["vdrop"] = math.copysign(24.0, args["vo"]), 20.0
     lim = rand_limits(rnd, p_limits)
     if lim is not None: args["limits"] = lim
     return {"kind": kind, "name": name, "args": args}
 
 
-DEFAULT_OPTS = dict(max_nodes=8, max_depth=4, n_sources=(1, 1), p_neg=0.2, p_mux=0.0, p_table=0.0, p_limits=0.0, p_phases=0.0, p_rails=0.0,
+DEFAULT_OPTS = dict(p_names=0.15, max_nodes=8, max_depth=4, n_sources=(1, 1), p_neg=0.2, p_mux=0.0, p_table=0.0, p_limits=0.0, p_phases=0.0, p_rails=0.0,
                     p_groups=0.0, p_dead_source=0.05, p_byrail=0.0, negsign=True, mux_inputs=(1, 4), p_rs_list=0.5)
 
 
@@ -109,8 +127,10 @@ def random_system(rnd, **opts):
         return ("R_" + name) if (kind not in LEAF and rnd.random() < o["p_rails"]) else ""
     def group_for():
         return rnd.choice(["g1", "g2", ""]) if rnd.random() < o["p_groups"] else ""
+    src_names = ["S%d" % k for k in range(nsrc)]
+    if rnd.random() < o.get("p_names", 0.15): src_names = rnd.choice([["5V", "15V", "115V"], ["Vin", "Vin2", "Vin 3"], ["bat", "bat-b", "a/bat"]])[:nsrc]
     for k in range(nsrc):
-        sp = comp_spec(rnd, "Source", "S%d" % k, pol, negsign=o["negsign"], p_limits=o["p_limits"])
+        sp = comp_spec(rnd, "Source", src_names[k], pol, negsign=o["negsign"], p_limits=o["p_limits"])
         if rnd.random() < o["p_dead_source"]: sp["args"]["vo"] = 0.0
         rail = rail_for(sp["name"], "Source")
         ops.append({"op": "system" if k == 0 else "add_source", "comp": sp, "group": group_for(), "rail": rail})
@@ -134,6 +154,7 @@ def random_system(rnd, **opts):
         par = rnd.choice(cand)
         kind = rnd.choice(LEAF if leaf else INNER)
         name = "%s%d" % (kind, k)
+        if rnd.random() < o.get("p_names", 0.15): name = rnd.choice(["System %s%d", "Sys.%s-%d", "%s %d (main)", "Subsys_%s%d"]) % (kind, k)
         sp = comp_spec(rnd, kind, name, pol, o["p_table"], o["p_limits"], o["negsign"])
         rail = rail_for(name, kind)
         pref = par[3] if (par[3] and rnd.random() < o["p_byrail"]) else par[0]
@@ -142,16 +163,24 @@ def random_system(rnd, **opts):
     # every non-leaf end gets at least a chance of a load so currents flow
     if rnd.random() < o["p_phases"]:
         phases = rnd.choice([{"a": 10.0, "b": 1.0}, {"a": 10.0, "b": 1.0, "c": 100.0}, {"sleep": 3600.0, "rx": 2.5, "tx": 0.5}])
+        r_ = rnd.random()
+        if r_ < o.get("p_oddphases", 0.12) / 2: phases = rnd.choice([{"a": 10.0, "b": 0.0, "c": 5.0}, {"on": 60, "off": 0}])          # a phase switched out of the duty cycle (duration 0), int durations
+        elif r_ < o.get("p_oddphases", 0.12): phases = rnd.choice([{"sleep": 302400.0, "tx": 90.0}, {"a": 86400.0, "b": 86400.0}])       # one load cycle longer than a day
         ops.append({"op": "set_sys_phases", "phases": phases})
         pn = list(phases)
+        ghost = o.get("p_ghost", 0.12)
         for (name, kind, _, _) in nodes:
             if rnd.random() < 0.5: continue
             if kind in PHASED_KINDS or kind in ("RectD", "RectM") and rnd.random() < 0.3:
                 conf = rnd.sample(pn, rnd.randint(1, len(pn) - 1))
-            elif kind == "PLoad": conf = {p: rnd.choice([0.02, 0.2, 0.001]) for p in rnd.sample(pn, rnd.randint(1, len(pn)))}
-            elif kind == "ILoad": conf = {p: rnd.choice([0.005, 0.002, 0.01]) for p in rnd.sample(pn, rnd.randint(1, len(pn)))}
+                g_ = rnd.random()
+                if g_ < ghost / 2: conf = ["zz"] if rnd.random() < 0.5 else ["zz", "yy"]        # names no phase of the plan carries: active in none of the defined phases
+                elif g_ < ghost: conf = conf + ["zz"]
+            elif kind == "PLoad": conf = {p: rnd.choice([0.02, 0.2, 0.001, 0.02, 0.0]) for p in rnd.sample(pn, rnd.randint(1, len(pn)))}
+            elif kind == "ILoad": conf = {p: rnd.choice([0.005, 0.002, 0.01, 0.005, 0.0]) for p in rnd.sample(pn, rnd.randint(1, len(pn)))}
             elif kind == "RLoad": conf = {p: rnd.choice([220.0, 50.0, 5000.0]) for p in rnd.sample(pn, rnd.randint(1, len(pn)))}
             else: continue
+            if isinstance(conf, dict) and rnd.random() < ghost: conf = dict(conf, zz=0.05 if kind != "RLoad" else 330.0)
             ops.append({"op": "set_comp_phases", "name": name, "conf": conf})
     return {"ops": ops}
 
@@ -160,6 +189,16 @@ def apply_op(sys_, op):
     """execute one recipe op on the real System (public API).  Returns the new System for 'system'."""
     from sysloss.system import System
     k = op["op"]
+    if op.get("werror"):       # the caller runs with warnings turned into errors (python -W error): a warning issued by the call raises
+        import warnings
+        op2 = {a: b for a, b in op.items() if a != "werror"}
+        comp = make_comp(op2["comp"]) if "comp" in op2 else None
+        with warnings.catch_warnings():
+            warnings.simplefilter("error")
+            if k == "add_comp": sys_.add_comp(copy.deepcopy(op["parent"]), comp=comp, group=op.get("group", ""), rail=op.get("rail", ""))
+            elif k == "change_comp": sys_.change_comp(op["name"], comp=comp, group=op.get("group", ""), rail=op.get("rail", ""))
+            else: return apply_op(sys_, op2)
+        return sys_
     if k == "system":
         return System(op.get("sysname", "sys"), make_comp(op["comp"]), group=op.get("group", ""), rail=op.get("rail", ""))
     if k == "add_source":
